@@ -31,3 +31,5 @@ def run(rep, tier):
     mapping.bound_spellings(rep)
     mapping.repeat_mapping(rep)
     mapping.spelling_pairs(rep)
+    from .. import controls
+    controls.e1_controls(rep)
